@@ -15,7 +15,12 @@ PROP = {'rule': 'history / historyLong: rapid state machine that plays the sched
          'drives a gang group (NextPod or queue pop -> BeforePreFilter opening the round context -> Permit | AfterPostFilter | '
          "Unreserve; NextPod's map-order choice is drawn by the harness and recorded in the round context, the real NextPod is "
          'called when it has 0 or 1 candidates), <=12 pods, gangs mostly complete; same non-trivial rule; classes round:* show '
-         'first / later failing members of a round and strict-member-fails-after-nonstrict-trigger. distinct = FNV-64 of the '
+         'first / later failing members of a round and strict-member-fails-after-nonstrict-trigger. rounds and historyVariants '
+         '(= the history machine) also draw the other spellings (match policy through the compatibility key '
+         'pod-group.scheduling.sigs.k8s.io/match-policy alone or next to the primary key, light-weight name label with '
+         'annotation min-available) and late bundling (PodGroup gangs of a multi-gang group start stand-alone and get the groups '
+         'annotation by a later PodGroup update; the model uses the group a gang currently declares); classes variant:*. '
+         'distinct = FNV-64 of the '
          'configuration and the full history.',
  'assumptions': ['Permit / Reserve failure / AfterPostFilter are only issued for pods whose informer add has reached the gang cache '
                  '(the scheduler queue is fed by the same informer) and that are unbound and not in another cycle',
